@@ -92,7 +92,7 @@ EXTENDS Naturals, Sequences, FiniteSets, TLC
 
 CONSTANTS
   ListenPool,    \* listen addresses the environment opens / closes
-  InitListen,    \* listen addresses open at the beginning
+  InitListen,    \* listen addresses open at the beginning (those outside ListenPool stay open)
   NatKeys,       \* listen addresses whose NAT mapping changes
   NatChoices,    \* answers of GetMapping ("-" = no mapping)
   ObsKeys,       \* local addresses whose AddrsFor answer changes
@@ -104,6 +104,8 @@ CONSTANTS
   HasNAT, HasObs,\* a NAT manager / an observed-address manager is configured
   PubOnly,       \* DisableNonPublicAddrPublishing
   Split,         \* every stub read of an update is a step of its own
+  StartFirst,    \* bound: the environment moves only after Start has returned (FALSE: Start at any moment)
+  MaxClose,      \* bound: 0 = Close is never called
   MaxEnv,        \* bound: changes of inputs + published events
   MaxNotify,     \* bound: notification calls
   MaxTime,       \* bound: 5 s steps of the clock (0: unbounded, for liveness)
@@ -117,15 +119,16 @@ NoIPA    == {"Rel2", "Lcirc"}                      \* no IP / DNS component in f
 LOrder   == <<"Lpriv", "Lpub", "Lun", "Lun6", "Lcirc">>     \* order in which the network reports listen addresses
 \* interface resolution of a listen address: two interfaces (private Ri1, public Ri2), none for ip6
 ResSeq(l) == IF l = "Lun" THEN <<"Ri1", "Ri2">> ELSE IF l = "Lun6" THEN <<>> ELSE <<l>>
-LocalU == ListenPool \cup {"Ri1", "Ri2"}           \* what AddrsFor may be asked about
+AllListen == ListenPool \cup InitListen
+LocalU == AllListen \cup {"Ri1", "Ri2"}            \* what AddrsFor may be asked about
 
-ASSUME ListenPool \subseteq {LOrder[i] : i \in 1..Len(LOrder)} /\ InitListen \subseteq ListenPool
+ASSUME AllListen \subseteq {LOrder[i] : i \in 1..Len(LOrder)}
 \* catalogue of AddrsFor answers (most-observed first); "e" = nothing observed
 ObsCat == [e |-> <<>>, a |-> <<"O1">>, b |-> <<"O2", "O1">>, c |-> <<"O1", "O2", "O3", "O4">>,
            d |-> <<"O4", "O3", "O2", "O1", "O5">>, n |-> <<"Npub", "O1">>, l |-> <<"Lpub", "O2">>, p |-> <<"Npriv", "O3">>]
-ASSUME NatKeys \subseteq ListenPool /\ ObsKeys \subseteq LocalU /\ "-" \in NatChoices
+ASSUME NatKeys \subseteq AllListen /\ ObsKeys \subseteq LocalU /\ "-" \in NatChoices
 ASSUME "e" \in ObsChoices /\ ObsChoices \subseteq DOMAIN ObsCat
-ASSUME "id" \in FModes /\ {} \in RelayChoices
+ASSUME "id" \in FModes
 
 VARIABLES
   listen, nat, obs, fmode,          \* inputs read through the stubs
@@ -198,10 +201,14 @@ HPNow == {a \in Fact(fmode, cur.local) \cup (IF HasObs THEN ObsAll ELSE {}) : a 
 LocalNow == LocalOf(listen, AccAll(listen))
 
 Running == pc \in {"init", "idle", "upd"}
+\* callers of updateAddrsSync (other than Start) that have not returned: one per token and one for the update being made
+\* for a token; the cancelled context releases them all
+NotifyWaiting == IF closeCalled THEN 0
+                 ELSE (notify + (IF pc = "upd" /\ trig = "notify" THEN 1 ELSE 0)) - (IF startWait THEN 1 ELSE 0)
 Empty == [local |-> {}, r |-> {}, u |-> {}, k |-> {}, relay |-> {}, addrs |-> {}, dial |-> {}, hr |-> "unknown", ls |-> {}, src |-> {}]
 
 Init ==
-  /\ listen = InitListen /\ nat = [l \in ListenPool |-> "-"] /\ obs = [x \in LocalU |-> "e"] /\ fmode = "id"
+  /\ listen = InitListen /\ nat = [l \in AllListen |-> "-"] /\ obs = [x \in LocalU |-> "e"] /\ fmode = "id"
   /\ relayQ = <<>> /\ reachQ = <<>> /\ notify = 0 /\ tickReady = FALSE /\ reachTrig = FALSE
   /\ pc = "off" /\ startWait = FALSE /\ closeCalled = FALSE /\ closeWait = FALSE
   /\ hostReach = "unknown" /\ relayLoop = {} /\ cur = Empty
@@ -212,7 +219,9 @@ Init ==
   /\ op = [name |-> "init"]
 
 (* ------------------------------ environment: inputs ------------------------------ *)
-EnvOK == nenv < MaxEnv
+\* StartFirst: nothing moves before Start has returned
+Ready == ~StartFirst \/ (pc \in {"idle", "upd", "exited"} /\ ~startWait)
+EnvOK == nenv < MaxEnv /\ Ready
 EnvStep(o) == /\ nenv' = nenv + 1 /\ dirty' = TRUE /\ op' = o
               /\ UNCHANGED <<chans, life, mgr, trk, ntime, nhour, nnotify>>
 
@@ -252,6 +261,7 @@ ProbeAll(P) == /\ trkR' = P /\ trkU' = Tracked \ P /\ trkK' = {}
 
 \* 5 seconds pass (the loop's ticker fires; a scheduled probe run of the tracker completes)
 Tick ==
+  /\ Ready
   /\ MaxTime = 0 \/ ntime < MaxTime
   /\ ntime' = IF MaxTime = 0 THEN ntime ELSE ntime + 1
   /\ tickReady' = (tickReady \/ pc \in {"idle", "upd"})
@@ -265,7 +275,7 @@ Tick ==
 
 \* 70 minutes pass: every tracked address is probed again
 Hour ==
-  /\ TrkLive /\ nhour < MaxHour /\ nhour' = nhour + 1
+  /\ Ready /\ TrkLive /\ nhour < MaxHour /\ nhour' = nhour + 1
   /\ tickReady' = (tickReady \/ pc \in {"idle", "upd"})
   /\ \E P \in SUBSET Tracked :
        /\ ProbeAll(P) /\ probeDue' = FALSE
@@ -283,6 +293,7 @@ StartCall ==
 
 \* NetNotifee().ListenF / ListenCloseF = updateAddrsSync: ignored before Start, after Close it returns at once
 NotifyCall ==
+  /\ Ready
   /\ nnotify < MaxNotify /\ nnotify' = nnotify + 1
   /\ IF pc \in {"off", "exited"} \/ closeCalled
        THEN \* as coded: in the window between Close and the loop's exit the token may or may not be left behind
@@ -294,6 +305,7 @@ NotifyCall ==
 
 \* Close: cancels the context (callers of Start / notify give up), closes NAT manager and tracker, waits for the loop
 CloseCall ==
+  /\ Ready /\ MaxClose > 0
   /\ ~closeCalled /\ closeCalled' = TRUE
   /\ closeWait' = Running /\ startWait' = FALSE
   /\ op' = [name |-> "close", immediate |-> ~Running, released |-> notify]
@@ -396,9 +408,9 @@ FairSpec == Init /\ [][Next]_vars /\ WF_vars(Tick) /\ WF_vars(LoopStep)
 (* ------------------------------ the statement ------------------------------ *)
 Reaches == {"unknown", "public", "private"}
 TypeOK ==
-  /\ listen \subseteq ListenPool /\ fmode \in FModes
+  /\ listen \subseteq AllListen /\ fmode \in FModes
   /\ pc \in {"off", "init", "idle", "upd", "exited"} /\ notify \in 0..2
-  /\ hostReach \in Reaches \cup ReachChoices /\ relayLoop \in RelayChoices
+  /\ hostReach \in Reaches \cup ReachChoices /\ relayLoop \in RelayChoices \cup {{}}
   /\ (pc = "upd") = (trig # "-") /\ (pc = "upd" => Split)
   /\ trkR \cap trkU = {} /\ trkR \cap trkK = {} /\ trkU \cap trkK = {} /\ Tracked \subseteq PubA
   /\ (~Tracker => Tracked = {} /\ ~reachTrig /\ ~probeDue)
@@ -435,7 +447,7 @@ Fresh ==
 Lifecycle ==
   /\ (closeWait => closeCalled /\ Running)
   /\ (closeCalled /\ Running => closeWait)
-  /\ (startWait => Running /\ ~closeCalled /\ notify > 0)
+  /\ (startWait => Running /\ ~closeCalled /\ (notify > 0 \/ (pc = "upd" /\ trig = "notify")))
   /\ (pc = "off" => cur = Empty /\ ~tickReady)
   /\ (pc = "exited" => closeCalled /\ relayQ = <<>> /\ reachQ = <<>>)
 
